@@ -60,10 +60,13 @@ func (this *Hnsw) VerifDump() VerifIndexDump {
 	serial := map[*hnswVertex]int{}
 	var order []*hnswVertex
 	var members []*hnswVertex
-	for _, shard := range this.vertices {
+	// (a dump may be taken while an apply loop is still writing: read the maps under their locks)
+	for i, shard := range this.vertices {
+		this.verticesMu[i].RLock()
 		for _, v := range shard {
 			members = append(members, v)
 		}
+		this.verticesMu[i].RUnlock()
 	}
 	sort.Slice(members, func(i, j int) bool { return uuidLess(members[i].id, members[j].id) })
 	for _, v := range members {
@@ -87,9 +90,11 @@ func (this *Hnsw) VerifDump() VerifIndexDump {
 		v := order[i]
 		for l := range v.edges {
 			var ns []*hnswVertex
+			v.edgeMutexes[l].RLock()
 			for n := range v.edges[l] {
 				ns = append(ns, n)
 			}
+			v.edgeMutexes[l].RUnlock()
 			sort.Slice(ns, func(a, b int) bool { return uuidLess(ns[a].id, ns[b].id) })
 			for _, n := range ns {
 				add(n)
@@ -110,9 +115,15 @@ func (this *Hnsw) VerifDump() VerifIndexDump {
 		}
 		for l := range v.edges {
 			var es []VerifEdge
+			v.edgeMutexes[l].RLock()
 			for n, dist := range v.edges[l] {
-				es = append(es, VerifEdge{To: serial[n], ToId: n.id, Deleted: n.isDeleted(), DistBits: math.Float32bits(dist)})
+				to, known := serial[n]
+				if !known {
+					to = -1 // linked while the dump was being taken
+				}
+				es = append(es, VerifEdge{To: to, ToId: n.id, Deleted: n.isDeleted(), DistBits: math.Float32bits(dist)})
 			}
+			v.edgeMutexes[l].RUnlock()
 			sort.Slice(es, func(a, b int) bool {
 				if es[a].ToId != es[b].ToId {
 					return uuidLess(es[a].ToId, es[b].ToId)
